@@ -1,6 +1,7 @@
 """C13 - funcutils.wraps / update_wrapper preserve signature and call behaviour."""
 import functools
 import inspect
+import types
 import itertools
 import keyword
 
@@ -84,15 +85,17 @@ def build_function(case):
     rec = '{' + ', '.join('%r: %s' % (n, n) for n in names) + '}'
     fname = 'target_fn'
     ns = {'_d': defaults}
-    if case.get('lambda') and not case['async'] and not annot:
+    gen = case.get('gen')       # None, 'gen' (generator function) or 'asyncgen' (async generator function)
+    if case.get('lambda') and not case['async'] and not annot and not gen:
         src = '%s = lambda %s: %s\n' % (fname, ', '.join(parts), rec)
     else:
         ret = ''
         if annot:
             ret = " -> 'R'" if annot == 'str' else ' -> dict'
-        src = '%sdef %s(%s)%s:\n%s    return %s\n' % (
-            'async ' if case['async'] else '', fname, ', '.join(parts), ret,
-            '    "documentation of the target"\n' if case.get('doc', True) else '', rec)
+        body = '    return %s\n' % rec if not gen else "    yield 'first'\n    yield %s\n" % rec
+        src = '%sdef %s(%s)%s:\n%s%s' % (
+            'async ' if (case['async'] and not gen) or gen == 'asyncgen' else '', fname, ', '.join(parts), ret,
+            '    "documentation of the target"\n' if case.get('doc', True) else '', body)
     exec(compile(src, '<c13-case>', 'exec'), ns)
     f = ns[fname]
     f.__module__ = 'c13_generated_module'
@@ -103,6 +106,26 @@ def build_function(case):
 
 
 def drive(value, is_async):
+    if is_async == 'gen':
+        if not isinstance(value, types.GeneratorType):
+            return ('not-a-generator', type(value).__name__)
+        return ('gen', list(value))
+    if is_async == 'asyncgen':
+        if not isinstance(value, types.AsyncGeneratorType):
+            if inspect.iscoroutine(value):
+                value.close()
+            return ('not-an-async-generator', type(value).__name__)
+        items = []
+        while True:
+            step = value.__anext__()
+            try:
+                step.send(None)
+            except StopIteration as e:
+                items.append(e.value)
+                continue
+            except StopAsyncIteration:
+                return ('asyncgen', items)
+            raise AssertionError('async generator suspended')
     if not is_async:
         return value
     try:
@@ -145,7 +168,7 @@ def run(case):
         f, src, names, defaults = build_function(case)
     except SyntaxError as e:
         raise HarnessError('generated source does not compile: %r' % (e,))
-    is_async = bool(case['async'])
+    is_async = case.get('gen') or bool(case['async'])
     sig_f = inspect.signature(f)
     kinds = {p.kind for p in sig_f.parameters.values()}
     has_default = any(p.default is not inspect.Parameter.empty for p in sig_f.parameters.values())
@@ -171,7 +194,7 @@ def run(case):
                 return out.fail('c13.metadata', '%s: %s is %r, original %r' % (desc, attr, getattr(w, attr, 'MISSING'), getattr(f, attr)))
         if getattr(w, '__wrapped__', None) is not f:
             return out.fail('c13.wrapped-attr', '%s: __wrapped__ is %r' % (desc, getattr(w, '__wrapped__', None)))
-        if inspect.iscoroutinefunction(w) != is_async:
+        if inspect.iscoroutinefunction(w) != (is_async is True):
             return out.fail('c13.async', '%s: iscoroutinefunction(wrapped) = %r' % (desc, inspect.iscoroutinefunction(w)))
         if case.get('attrs') and (getattr(w, 'custom_attribute', None) != ['marker'] or getattr(w, 'other', None) != 5):
             return out.fail('c13.metadata', '%s: function attributes not copied' % desc)
@@ -247,6 +270,24 @@ def run(case):
         want = [p for p in orig if p[0] not in inj]
         if got != ('ok', want):
             return out.fail('c13.injected-signature', '%s: injected=%r gives parameters %r, expected %r' % (desc, inj, got, want))
+    # ---- injected and expected in ONE call -------------------------------------
+    for n in names_kw[:3]:
+        remaining = [p for p in orig if p[0] != n]
+        rem_pos_defaults = any(p[1] in ('POSITIONAL_ONLY', 'POSITIONAL_OR_KEYWORD') and p[2] != 'EMPTY' for p in remaining)
+        for exp_arg, new_name, new_default in (([('zz_new', 5)], 'zz_new', 5), (['zz_new'], 'zz_new', 'EMPTY'), ({n: 10}, n, 10)):
+            if new_default == 'EMPTY' and rem_pos_defaults:
+                continue        # a parameter without default cannot follow the remaining defaults (see the recorded finding)
+            r = _call(update_wrapper, passthrough(f), f, injected=[n], expected=exp_arg)
+            if r[0] != 'ok':
+                return out.fail('c13.injected+expected', '%s: injected=[%r], expected=%r -> %r' % (desc, n, exp_arg, r))
+            got = _call(lambda: sig_summary(inspect.signature(r[1], follow_wrapped=False)))
+            if got[0] != 'ok':
+                return out.fail('c13.injected+expected', '%s: injected=[%r], expected=%r: %r' % (desc, n, exp_arg, got))
+            rest = [p for p in got[1] if p[0] != new_name]
+            new = [p for p in got[1] if p[0] == new_name]
+            if rest != remaining or len(new) != 1 or new[0][2] != new_default:
+                return out.fail('c13.injected+expected', '%s: injected=[%r] together with expected=%r gives parameters %r; expected %r plus %s with default %r' % (
+                    desc, n, exp_arg, got[1], remaining, new_name, new_default))
     # ---- expected ---------------------------------------------------------
     pos_defaults = any(d for _, d in case['pos'])
     for form, exp_arg, new_default in (
@@ -315,8 +356,10 @@ def run(case):
     if changed:
         out.label('rewrapped_after_change')
     out.label('call_shapes:%d' % (1 << max(0, shapes.bit_length() - 1)))
-    if is_async:
+    if is_async is True:
         out.label('async')
+    elif is_async:
+        out.label('generator_function:' + is_async)
     if case['annot']:
         out.label('annotated')
     if not accepted:
@@ -353,6 +396,7 @@ def strat(tier):
             'async': draw(st.sampled_from([False, False, True])),
             'lambda': draw(st.sampled_from([False, False, True])),
             'attrs': draw(st.booleans()), 'doc': draw(st.booleans()), 'rich_defaults': True,
+            'gen': draw(st.sampled_from([None, None, None, None, 'gen', 'asyncgen'])),
         }
     return case()
 
